@@ -424,6 +424,10 @@ def c09h(ck, prog):
         for st in f.blocks[bi]["st"]:
             if st["k"] == "=" and st["p"][1] and st["p"][1][-1][0] == "f" and st["p"][1][-1][2] == "section" and not f.is_cleanup(bi):
                 facts = guards.facts_at(f, prog, bi)
+                vd = decision.describe_deep(f, st["r"][1], 6) if st["r"][0] == "use" else ""
+                if re.search(r"strip_prefix\(|split_first\(", vd):
+                    consumed.append(bi)      # `self.section = self.section.strip_prefix(b",").ok_or_else(..)?`
+                    continue
                 if any((fa.kind == "int" and fa.values == {44}) or (fa.kind == "variant" and fa.allowed == {"Some"} and fa.steps and re.search(r"split_first|strip_prefix", guards.describe_origin(f, fa.steps))) for fa in facts):
                     consumed.append(bi)
     nones = [bb for bb, kind, payload in paths.ret_sites(f) if kind == "Ok" and decision.describe_deep(f, payload[2][0], 2).startswith("None")]
